@@ -1,6 +1,7 @@
 import OlVerif.Lower.Stmt
 import OlVerif.Order.Proof
 import OlVerif.Sem.Module
+import OlVerif.Sem.Decide
 namespace OlVerif.C01
 
 /-- the arguments of a chain of calls `f(a0)(a1)...(an)`, in evaluation order -/
@@ -45,20 +46,29 @@ theorem straight_line_effects (ρ : Expr → Bool) (cfg : Cfg) (root : SymScope)
 
 /-! ### value-level semantics (M-EVAL) -/
 open OlVerif.Sem in
-/-- **Straight-line module code means the same after conversion, for every world.**  Take any user
+/-- **Module code of the fragment means the same after conversion, for every world.**  Take any user
     state and value types, any meaning of the expression forms M-EVAL does not fix (calls, operators,
-    lambdas, comprehensions, ... - `W.eval`) and any meaning of the primitive operations (binding a
-    global name, attribute and item access, the in-place operators).  For a module made of expression
-    statements, `pass`, `global`, assignments with any number of name / attribute / subscript
-    targets and augmented assignments on such targets, whose expressions do not mention `__ol_`
-    names: whenever the script runs from user state `u` to `u'`, the converted expression evaluates
-    from `u` to `u'` - under both wrappers, with the helper variables it creates (`t'`) kept apart
-    from the user state.  Control flow around such statements is C05's theorem, functions / classes /
-    imports are not covered at value level. -/
-theorem module_straightline_semantics {U V : Type} (W : World U V) (cfg : Cfg) (root : SymScope) (body : List Stmt)
-    (hs : ∀ s ∈ body, SimpleS s) (e : Expr) (h : lowerFull cfg root body = .ok e) {u u' : U} (hx : ExecB W body u u') :
-    ∃ v t', Ev W e u [] v u' t' :=
-  module_sim W cfg root body hs e h hx
+    lambdas, comprehensions, ... - `W.eval`), any meaning of the primitive operations (binding a
+    global name, attribute and item access, the in-place operators) and of the truth test of user
+    values (`W.truthy`, which may run user code and may fail); a non-empty list is true, and taking
+    the truth value of an object again right away repeats the answer and changes nothing (`Lawful`).  For a module made of expression statements, `pass`, `global`, assignments
+    with any number of name / attribute / subscript targets, augmented assignments on such targets
+    and `if` / `elif` / `else` over such statements at any nesting, whose expressions do not mention
+    `__ol_` names: whenever the script runs from user state `u` to `u'`, the converted expression
+    evaluates from `u` to `u'` - under both wrappers and both if-styles, with the helper variables it
+    creates (`t'`) kept apart from the user state.  In particular the truth value of a statement's
+    value is never taken (it may be undefined), and that of a condition only where the script takes
+    it, possibly again right away (under `short_circuit`; KF-D61b is the world where that shows).  Loops are C05's theorem; functions,
+    classes and imports are not covered at value level. -/
+theorem module_straightline_semantics {U V : Type} (W : World U V) (hW : Lawful W) (cfg : Cfg) (root : SymScope)
+    (body : List Stmt) (hs : ∀ s ∈ body, SimpleS s) (e : Expr) (h : lowerFull cfg root body = .ok e) {u u' : U}
+    (hx : ExecB W body u u') : ∃ v t', Ev W e u [] v u' t' :=
+  module_sim W hW cfg root body hs e h hx
+
+open OlVerif.Sem in
+/-- the hypothesis is decidable: the correspondence check evaluates it on real programs -/
+theorem fragment_decidable_sound (body : List Stmt) (h : simpleModuleB body = true) : ∀ s ∈ body, SimpleS s :=
+  simpleModuleB_sound body h
 
 open OlVerif.Sem in
 /-- an expression free of helper names neither reads nor writes helper variables (proved, not assumed) -/
@@ -73,7 +83,7 @@ theorem module_level_expressions_unchanged (n : Nsp) (hn : n.kind = .module) (b 
 
 namespace Ex
 open OlVerif.Sem
-/-- non-vacuity: integers, globals as an association list, `+=` on integers -/
+/-- non-vacuity: integers, globals as an association list, `+=` on integers, C-like truth -/
 def W : World (List (String × Int)) Int where
   eval := fun e u => match e with
     | .name x => (u.lookup x).map (·, u)
@@ -85,26 +95,28 @@ def W : World (List (String × Int)) Int where
   getitem := fun _ _ _ => none
   setitem := fun _ _ _ _ => none
   iop := fun op a b u => match op with | .add => some (a + b, u) | _ => none
-  listOf := fun _ => 0
+  listOf := fun vs => vs.length
   noneV := 0
   runner := 0
+  truthy := fun v u => some (decide (v ≠ 0), u)
 
-/-- `x = 1; x += 2` -/
-def prog : List Stmt := [.assign [.name "x"] (.const (.int 1)), .augAssign (.name "x") .add (.const (.int 2))]
+theorem W_lawful : Lawful W where
+  list := by intro v vs u; simp [W]; omega
+  retest := by intro v u u' b h; simp only [W, Option.some.injEq, Prod.mk.injEq] at h ⊢; exact ⟨h.1, trivial⟩
 
-theorem prog_simple : ∀ s ∈ prog, SimpleS s := by
-  intro s hs
-  simp only [prog, List.mem_cons, List.mem_nil_iff, or_false] at hs
-  rcases hs with rfl | rfl
-  · exact .assign _ _ (by simp) (fun t ht => by simp at ht; subst ht; exact .name "x") (.const _)
-  · exact .aug _ _ _ (.name "x") (.const _)
+/-- `x = 1` / `if x: x += 2` / `else: pass` -/
+def prog : List Stmt :=
+  [.assign [.name "x"] (.const (.int 1)), .if_ (.name "x") [.augAssign (.name "x") .add (.const (.int 2))] [.pass_]]
+
+theorem prog_simple : ∀ s ∈ prog, SimpleS s := fragment_decidable_sound prog (by decide)
 
 theorem prog_runs : ExecB W prog [] [("x", 3), ("x", 1)] :=
   .cons (.assign _ _ (.const _ _ _) (.cons (.name "x" _ _ (by decide)) (.nil _ _)))
-    (.cons (.augName "x" .add _ (by decide) (.user _ _ (by decide) rfl) (.const _ _ _) rfl) (.nil _))
+    (.cons (.ifTrue _ _ _ (.user _ _ (by decide) rfl) rfl
+      (.cons (.augName "x" .add _ (by decide) (.user _ _ (by decide) rfl) (.const _ _ _) rfl) (.nil _))) (.nil _))
 
-example : ∃ e, lowerFull {} default prog = .ok e ∧ ∃ v t', Ev W e [] [] v [("x", 3), ("x", 1)] t' :=
-  ⟨_, rfl, module_straightline_semantics W {} default prog prog_simple _ rfl prog_runs⟩
+example : ∃ e, lowerFull { ifStyle := .shortCircuit } default prog = .ok e ∧ ∃ v t', Ev W e [] [] v [("x", 3), ("x", 1)] t' :=
+  ⟨_, rfl, module_straightline_semantics W W_lawful { ifStyle := .shortCircuit } default prog prog_simple _ rfl prog_runs⟩
 end Ex
 
 end OlVerif.C01
